@@ -269,6 +269,7 @@ def run(ctx):
                                      "schedule); non-trivial = at least one failed trylock CAS in the implementation trace"})
         if not ok or ctx.failures:
             search(ctx, exe)
+    core.init_contract(ctx, ["fiber_spinlock"])  # rt/h_init.c: real init on dirty memory
     core.finish(ctx, extra_assumptions=ASSUME)
 
 
@@ -303,6 +304,8 @@ def corpus(ctx):
 
 
 def replay(ctx, payload):
+    if payload.get("harness") == "h_init":
+        return core.replay_init(ctx, payload)
     exe = build(ctx)
     c = payload.get("case")
     if not exe or not c:
